@@ -495,14 +495,22 @@ func (e *Engine) eqVal(a, b Val) *Term {
 	if u, ok := a.(Union); ok {
 		r := bb.False()
 		for _, al := range u.alts {
-			r = bb.Or(r, bb.And(al.g, e.eqVal(al.v, b)))
+			t := e.eqVal(al.v, b)
+			if t == nil {
+				return nil
+			}
+			r = bb.Or(r, bb.And(al.g, t))
 		}
 		return r
 	}
 	if u, ok := b.(Union); ok {
 		r := bb.False()
 		for _, al := range u.alts {
-			r = bb.Or(r, bb.And(al.g, e.eqVal(a, al.v)))
+			t := e.eqVal(a, al.v)
+			if t == nil {
+				return nil
+			}
+			r = bb.Or(r, bb.And(al.g, t))
 		}
 		return r
 	}
@@ -520,7 +528,11 @@ func (e *Engine) eqVal(a, b Val) *Term {
 		}
 		r := bb.True()
 		for i := range x.f {
-			r = bb.And(r, e.eqVal(x.f[i], y.f[i]))
+			t := e.eqVal(x.f[i], y.f[i])
+			if t == nil {
+				return nil
+			}
+			r = bb.And(r, t)
 		}
 		return r
 	case ArrayV:
@@ -530,7 +542,11 @@ func (e *Engine) eqVal(a, b Val) *Term {
 		}
 		r := bb.True()
 		for i := range x.e {
-			r = bb.And(r, e.eqVal(x.e[i], y.e[i]))
+			t := e.eqVal(x.e[i], y.e[i])
+			if t == nil {
+				return nil
+			}
+			r = bb.And(r, t)
 		}
 		return r
 	case Ptr:
@@ -591,7 +607,15 @@ func (e *Engine) eqVal(a, b Val) *Term {
 			return bb.Bool(x.fn == nil && y.fn == nil)
 		}
 	}
-	e.curPoison = fmt.Sprintf("eqVal: unsupported comparison %T vs %T", a, b)
+	if _, ok := a.(Poison); ok {
+		e.curPoison = "eqVal: poisoned operand: " + a.(Poison).why
+		return nil
+	}
+	if _, ok := b.(Poison); ok {
+		e.curPoison = "eqVal: poisoned operand: " + b.(Poison).why
+		return nil
+	}
+	e.curPoison = fmt.Sprintf("eqVal: unsupported comparison %s vs %s", describe(a), describe(b))
 	return nil
 }
 
